@@ -206,6 +206,14 @@ pub fn plant_counter_dir(dir: &str, parts: usize) -> Vec<(String, Vec<u8>)> {
             planted.push((format!("temp_kmers.part_{}_chunk_{}", p, ch), t));
         }
     }
+    // what a run that died half-way may leave: staging copies of the result files, longer than any new result
+    for n in ["kmers.counts.tmp", "kmers.vectors.tmp", "kmers.counts.part", ".kmers.counts.swp"] {
+        let mut t = Vec::new();
+        for i in 0..9000u64 {
+            t.extend_from_slice(format!("{}\t{}\n", i * 7 + 3, 11).as_bytes());
+        }
+        planted.push((n.to_string(), t));
+    }
     for (n, c) in &planted {
         let _ = std::fs::write(format!("{}/{}", dir, n), c);
     }
